@@ -588,3 +588,22 @@ _add("C14", _LIFE + "Reset of ANY state (mid-block, failed, closed, after EOF; t
      "every input on Peek-capable sources and every valid input on both kinds (flate_reader_reset_same_stream_*). Proved "
      "negative: call by call a grown buffer shows as a different split of the output over Read calls "
      "(flate_reader_reset_keeps_capacity_refuted), a legal short-read difference.")
+
+_add("C03", "ADDED: THE PROPERTY AT IMPLEMENTATION LEVEL (Bzip2/Impl.v + 28 proof files, 8400 lines, by a proof sub-agent): a model of "
+     "bzip2.Reader itself - the big-endian bit reader over both source kinds, ReadPrefixCodes on six recycled Decoder objects with "
+     "GeneratePrefixes / handleDegenerateCodes, selectors, the 50-symbol groups, moveToFront.Decode, the BWT inversion, the "
+     "resumable rle.Read per call, the CRC on reversed bits, the Read loop with errors.Recover, stream concatenation - compared "
+     "with the real Reader PER Read CALL (bytes, error class, both offsets, source position; WBZIMPL), is proved to REFINE the "
+     "libbzip2 port for every input, source kind and script and every Read schedule (bzip2_reader_implementation_refines_libbzip2): "
+     "never a panic; io.EOF exactly when libbzip2 accepts, then with its bytes and InputOffset = the input consumed; otherwise "
+     "libbzip2 rejects too, the delivered bytes are a prefix of its output, and class and bytes are the same - or the class is "
+     "io.ErrUnexpectedEOF (known finding D11, in the statement). Not in the statement: OutputOffset and InputOffset at errors "
+     "other than io.EOF (correspondence only).")
+_add("C10", "ADDED: known finding D11 (bzip2.Reader over a byte-at-a-time source: UnexpectedEOF instead of Corrupted for a dead prefix "
+     "of an under-subscribed tree at the end of the input) is recorded with a generated witness family, and its negative statement "
+     "is proved inside Coq on the implementation-level model of bzip2.Reader (bzip2_class_depends_on_source_kind_D11). Defect D12 "
+     "(flate stored block completed by a Read that also returns io.EOF) was found through this property, reproduced by the "
+     "strengthened corpus and repaired (fix: 8f93947).")
+_add("C14", "ADDED: bzip2.Reader.Reset at implementation level: from ANY state with its six Decoder objects (every reachable state has "
+     "them) the Reader after Reset refines libbzip2 exactly as a new one (bzip2_reader_reset_refines_libbzip2, "
+     "bzip2_reader_reachable_has_six_decoders); Reset sequences are part of the per-call correspondence WBZIMPL.")
